@@ -41,6 +41,14 @@ def _gram(ln, cs):
 
 
 def _rot(rs):
+    """a rotated description of the cell: generic rotations, and (every third draw) one of the 24 axis-aligned ones -- half and
+    quarter turns keep a rectangular cell's vectors on the axes, with negative or permuted components"""
+    if rs.randint(3) == 0:
+        while True:
+            p = rs.permutation(3); sg = rs.choice([-1.0, 1.0], size=3)
+            m = np.zeros((3, 3)); m[np.arange(3), p] = sg
+            if np.linalg.det(m) > 0:
+                return m
     q = rs.randn(4); q /= np.linalg.norm(q)
     w, x, y, z = q
     return np.array([[1 - 2 * (y * y + z * z), 2 * (x * y - z * w), 2 * (x * z + y * w)],
